@@ -17,7 +17,7 @@ Proof.
 Qed.
 
 (* one-step unfolding of update_node around the part that ends with the node marked done *)
-Definition un_body (F : rule) (orig : bool) (f : nat) (s : st) (n : nat) : option st :=
+Definition un_body {Val} (F : rule Val) (orig : bool) (f : nat) (s : st Val) (n : nat) : option (st Val) :=
   let s1 := mark s n true false in
   let ds := deps (get (g s) n) in
   match fold_left (fun acc d => match acc with None => None | Some a =>
@@ -28,7 +28,7 @@ Definition un_body (F : rule) (orig : bool) (f : nat) (s : st) (n : nat) : optio
     Some (mark s3 n true true)
   end.
 
-Lemma update_node_unfold F orig f s n b :
+Lemma update_node_unfold {Val} (F : rule Val) orig f s n b :
   update_node F orig (S f) s n b =
   if visited (get (g s) n) then Some s else
   match un_body F orig f s n with
@@ -46,7 +46,8 @@ Proof.
 Qed.
 
 Section Log.
-  Variable F : rule.
+  Context {Val : Type}.
+  Variable F : rule Val.
   Variables D Dts : nat -> list nat.
   Variable rank : nat -> nat.
   Variable N : nat.
@@ -61,10 +62,10 @@ Section Log.
   Local Notation Safe := (update_node_safe F D Dts rank N rank_ok D_range Dts_range).
 
   (* some dependency of n has changed *)
-  Definition chg (gr : graph) (n : nat) : bool := existsb (fun d => changed (get gr d)) (D n).
+  Definition chg (gr : graph Val) (n : nat) : bool := existsb (fun d => changed (get gr d)) (D n).
   (* newest-first log: nothing n depends on was updated after n *)
   Definition Ordered (l : list nat) := forall l1 n l2, l = l1 ++ n :: l2 -> forall d, In d (D n) -> ~ In d l1.
-  Definition LogOK (s : st) :=
+  Definition LogOK (s : st Val) :=
     NoDup (log s) /\ Ordered (log s) /\
     forall n, In n (log s) <-> (n < N /\ done (get (g s) n) = true /\ chg (g s) n = true).
 
@@ -92,7 +93,7 @@ Section Log.
   Qed.
 
   (* step A of update_node: marking an undone node pending keeps the invariants *)
-  Lemma mark_pending_get s n m :
+  Lemma mark_pending_get (s : st Val) n m :
     n < length (g s) ->
     get (g (mark s n true false)) m = if Nat.eqb n m then reflag (get (g s) n) true false else get (g s) m.
   Proof.
@@ -177,7 +178,7 @@ Section Log.
   Qed.
 
   (* pending nodes after the mark are n itself or were pending before *)
-  Lemma pend_mark s n p : n < length (g s) -> pend (g (mark s n true false)) p -> p = n \/ pend (g s) p.
+  Lemma pend_mark (s : st Val) n p : n < length (g s) -> pend (g (mark s n true false)) p -> p = n \/ pend (g s) p.
   Proof.
     intros L [A B]. rewrite mark_pending_get in A, B by auto. destruct (Nat.eqb_spec n p); auto. right; split; auto.
   Qed.
@@ -219,8 +220,8 @@ Section Log.
         - intros m Hm Dm. rewrite mark_pending_get in Dm by auto. destruct (Nat.eqb_spec n m) as [->|]; [simpl in Dm; discriminate|auto]. }
       remember (mark s n true false) as s1 eqn:Hs1.
       match type of EB4 with match ?T with _ => _ end = _ => destruct T as [s2|] eqn:EB end; [|discriminate].
-      pose (P := fun a : st => Shape (g a) /\ Inv (g a) /\ Ext (g s1) (g a) /\ LogOK a).
-      pose (fB := fun (a : st) (d : nat) => if visited (get (g a) d) then Some a else update_node F false f a d true).
+      pose (P := fun a : st Val => Shape (g a) /\ Inv (g a) /\ Ext (g s1) (g a) /\ LogOK a).
+      pose (fB := fun (a : st Val) (d : nat) => if visited (get (g a) d) then Some a else update_node F false f a d true).
       assert (PreB : forall a d, In d (D n) -> P a -> Pre (g a) d true).
       { intros a d Hd (Sa & Ia & (_ & _ & _ & _ & Qa & _ & _) & _) p Hp Pp.
         destruct (P1 p (Qa p Hp Pp)) as [->|Ps]; [apply rank_ok; auto|].
@@ -248,7 +249,7 @@ Section Log.
     { injection E as <-. exact LK4. }
     assert (Dt4 : dependents (get (g s4) n) = Dts n) by (apply S4; auto).
     rewrite Dt4 in E.
-    pose (PE := fun a : st => Shape (g a) /\ Inv (g a) /\ Ext (g s4) (g a) /\ LogOK a).
+    pose (PE := fun a : st Val => Shape (g a) /\ Inv (g a) /\ Ext (g s4) (g a) /\ LogOK a).
     assert (PreE : forall a m, PE a -> Pre (g a) m false).
     { intros a m (_ & _ & (_ & _ & _ & _ & Qa & _ & _) & _) p Hp Pp. simpl in Pr. eapply Pr; eauto. }
     assert (PE' : PE s').
@@ -262,7 +263,7 @@ Section Log.
   Qed.
 
   (* ---------------- the drain loop ---------------- *)
-  Definition Walkable (s : st) := Shape (g s) /\ Inv (g s) /\ NoPend N (g s).
+  Definition Walkable (s : st Val) := Shape (g s) /\ Inv (g s) /\ NoPend N (g s).
 
   Lemma drain_log : forall rounds fuel s s',
     Walkable s -> LogOK s -> drain F false rounds fuel s = Some s' -> LogOK s'.
